@@ -571,10 +571,12 @@ def run(ck: common.Check):
         if ob.get("dump") is not None:
             reqs.append({"op": "denote", "store": R.strip_width(ob["dump"])})
             reqs.append({"op": "read", "store": R.strip_width(ob["dump"])})
+            reqs.append({"op": "read", "validate": True, "store": R.strip_width(ob["dump"])})
     for ob in obs3:
         if ob.get("dump") is not None:
             reqs.append({"op": "denote", "store": R.strip_width(ob["dump"])})
             reqs.append({"op": "read", "store": R.strip_width(ob["dump"])})
+            reqs.append({"op": "read", "validate": True, "store": R.strip_width(ob["dump"])})
     answers = drv.ask(reqs)
     if answers is None:
         ck.broken.append({"what": "driver Drivers/C02.lean", "detail": drv.broken or getattr(drv, "build_log", "")})
@@ -624,14 +626,14 @@ def run(ck: common.Check):
             ck.broken.append({"what": "corr C02:independent-writer", "detail": {"case": c, "error": ob["indep_error"]}})
             continue
         want = R.strip_width(ob["want"])
-        lean_g = lean_r = None
+        lean_g = lean_r = lean_rv = None
         if answers is not None:
-            a, r = answers[ai], answers[ai + 1]
-            ai += 2
-            if "err" in a or "err" in r:
-                ck.corr_broken("C02:driver", c, None, [a, r])
+            a, r, rv = answers[ai], answers[ai + 1], answers[ai + 2]
+            ai += 3
+            if "err" in a or "err" in r or "err" in rv:
+                ck.corr_broken("C02:driver", c, None, [a, r, rv])
             else:
-                lean_g, lean_r = canon_graph(a["graph"]), r
+                lean_g, lean_r, lean_rv = canon_graph(a["graph"]), r, rv
         py = R.strip_width(ob["py_decode"])
         # the independent store really is a conformant layout of `want` (independent writer vs the two spec decoders)
         if py != want or (answers is not None and lean_g != want):
@@ -658,6 +660,9 @@ def run(ck: common.Check):
                     ck.corr_broken("C02:readToMemory-result", c, R.strip_width(rd["inmem"]), R.canon_geff(lean_r["geff"]))
                 elif canon_graph(lean_r["graph"]) != want:
                     ck.corr_broken("C02:graphOf", c, want, canon_graph(lean_r["graph"]))
+        # model reader with the structural validator (C04's model through the bridge) vs the real default read
+        if lean_rv is not None and lean_rv["outcome"] != ob["read_validated"]["outcome"]:
+            ck.corr_broken("C02:readToMemory-outcome(validated)", c, ob["read_validated"], lean_rv["outcome"])
     # ---------------- direction 3 verdicts (model reader == real reader on stores that break one clause)
     n3 = 0
     for c, ob in zip(d3, obs3):
@@ -670,11 +675,13 @@ def run(ck: common.Check):
         rd = ob["read_raw"]
         conf = None
         if answers is not None:
-            a, r = answers[ai], answers[ai + 1]
-            ai += 2
-            if "err" in a or "err" in r:
-                ck.corr_broken("C02:driver", c, None, [a, r])
+            a, r, rv = answers[ai], answers[ai + 1], answers[ai + 2]
+            ai += 3
+            if "err" in a or "err" in r or "err" in rv:
+                ck.corr_broken("C02:driver", c, None, [a, r, rv])
                 continue
+            if rv["outcome"] != ob["read_validated"]["outcome"]:
+                ck.corr_broken("C02:readToMemory-outcome(validated, non-conformant)", c, ob["read_validated"], rv["outcome"])
             conf = a["graph"] is not None
             m_out = r["outcome"]
             if m_out.startswith("unmodelled"):
